@@ -137,8 +137,13 @@ func pairs() []pair {
 			for ti, nt := range []*tbin.Shape{tbin.Sc(tbin.I32), st(sf(1, tbin.Sc(tbin.I32))), tbin.ListS(tbin.Sc(tbin.STRING)), tbin.MapS(tbin.Sc(tbin.I16), tbin.Sc(tbin.DOUBLE)), tbin.Sc(tbin.STRING)} {
 				for _, req := range []int{0, 1, 2} {
 					nt, req := nt, req
-					for _, id := range []int16{77, 300} {
+					// 77 / 300: another bitmap word than the low ids of the bases; 40: the SAME word as the low ids, so that
+					// an absent low field and the added field are pending in one word of the requires bitmap
+					for _, id := range []int16{77, 300, 40} {
 						if id == 300 && (ti != 0 || req == 2) {
+							continue
+						}
+						if id == 40 && (ti > 1 || hasFieldID(target, 40)) {
 							continue
 						}
 						id := id
@@ -497,4 +502,13 @@ func run(p pair, parse, variant string) core.Result {
 		r.Class = "violation"
 	}
 	return r
+}
+
+func hasFieldID(s *tbin.Shape, id int16) bool {
+	for _, f := range s.Fields {
+		if f.ID == id {
+			return true
+		}
+	}
+	return false
 }
